@@ -209,6 +209,9 @@ class Interp:
     def op_translate(self, op) -> None:
         self.env[op["target"]].translate(op["d"])
 
+    def op_translate_op(self, op) -> None:
+        self.env[op["target"]].translate(op["d"])
+
     def op_rotate(self, op) -> None:
         self.env[op["target"]].rotate(op["angle"], op["axis"], op.get("origin"))
 
